@@ -364,17 +364,25 @@ Definition sign0 (p : pset0) (k : nat) (sig pk : bytes) (fmt_ok : bool) (rs ws :
 (* ------------------------------------------------------------------ *)
 (* multisig ordering and final scripts                                 *)
 (* ------------------------------------------------------------------ *)
-Fixpoint is_prefix (p s : bytes) : bool :=
-  match p, s with
-  | [], _ => true
-  | a :: p', b :: s' => beqb a b && is_prefix p' s'
-  | _ :: _, [] => false
+(* position of a key = byte offset of the first data push that carries it (fix a3dd5d3:
+   txscript tokenizer, `Data() != nil`, first push wins) *)
+Definition is_push_op (op : byte) : bool := (1 <=? n8 op) && (n8 op <=? 0x4e).
+Definition tok_size (t : byte * bytes) : N :=
+  let o := n8 (fst t) in
+  let l := lenN (snd t) in
+  1 + (if (1 <=? o) && (o <=? 0x4b) then l
+       else if o =? 0x4c then 1 + l
+       else if o =? 0x4d then 2 + l
+       else if o =? 0x4e then 4 + l
+       else 0).
+Fixpoint push_index (k : bytes) (toks : list (byte * bytes)) (off : N) : option N :=
+  match toks with
+  | [] => None
+  | (op, d) :: r =>
+      if is_push_op op && bytes_eqb d k then Some off else push_index k r (off + tok_size (op, d))
   end.
-(* bytes.Index(s, p), counted from k *)
-Fixpoint bindex_from (p s : bytes) (k : N) : option N :=
-  if is_prefix p s then Some k
-  else match s with [] => None | _ :: r => bindex_from p r (k + 1) end.
-Definition bindex_of (p s : bytes) : option N := bindex_from p s 0.
+Definition key_position (script k : bytes) : option N :=
+  match tokenize script with Some toks => push_index k toks 0 | None => None end.
 
 (* insertion sort by position (sort.Slice with `index <`; stable here, Go's is not — the
    two agree whenever positions are pairwise different) *)
@@ -390,7 +398,7 @@ Fixpoint positions (script : bytes) (ps : list (bytes * bytes)) : option (list (
   match ps with
   | [] => Some []
   | (pk, sg) :: r =>
-      match bindex_of pk script with
+      match key_position script pk with
       | None => None
       | Some pos => match positions script r with Some l => Some ((pos, sg) :: l) | None => None end
       end
@@ -791,9 +799,9 @@ Definition nw_to_w2 (p : pset2) (k : nat) : pset2 * rstat :=
       end
   end.
 
-(* Signer.SignInput. The Copy() it takes is shallow (same backing array), so every write
-   lands in the packet at once and is kept when a later step fails. *)
-Definition sign2 (p : pset2) (k : nat) (sig pk : bytes) (fmt_ok : bool) (rs ws : option bytes) : pset2 * rstat :=
+(* Signer.SignInput (fix fd68736): every change is made on a staged copy, which is published
+   only when all steps and the final SanityCheck succeed; sign2_staged is the staged run *)
+Definition sign2_staged (p : pset2) (k : nat) (sig pk : bytes) (fmt_ok : bool) (rs ws : option bytes) : pset2 * rstat :=
   match nth_error (q_ins p) k with
   | None => (p, StErr)
   | Some i0 =>
@@ -826,14 +834,19 @@ Definition sign2 (p : pset2) (k : nat) (sig pk : bytes) (fmt_ok : bool) (rs ws :
       end
   end.
 
-(* SignTaprootInputKeySig / SignTaprootInputTapscriptSig *)
+Definition atomic2 (p : pset2) (r : pset2 * rstat) : pset2 * rstat :=
+  match r with (p', StOk) => (p', StOk) | (_, s) => (p, s) end.
+Definition sign2 (p : pset2) (k : nat) (sig pk : bytes) (fmt_ok : bool) (rs ws : option bytes) : pset2 * rstat :=
+  atomic2 p (sign2_staged p k sig pk fmt_ok rs ws).
+
+(* SignTaprootInputKeySig / SignTaprootInputTapscriptSig (staged, published after SanityCheck) *)
 Definition sign_tap_key2 (p : pset2) (k : nat) (sig : bytes) : pset2 * rstat :=
   match nth_error (q_ins p) k with
   | None => (p, StErr)
   | Some i =>
       if is_final2 i then (p, StOk)
       else if nonempty (q_tapsigs i) then (p, StErr)
-      else let p' := with_in2 p k (set_tapkeysig sig) in (p', if sanity2 p' then StOk else StErr)
+      else let p' := with_in2 p k (set_tapkeysig sig) in if sanity2 p' then (p', StOk) else (p, StErr)
   end.
 Definition sign_tap_script2 (p : pset2) (k : nat) (s : tsig) : pset2 * rstat :=
   match nth_error (q_ins p) k with
@@ -842,7 +855,7 @@ Definition sign_tap_script2 (p : pset2) (k : nat) (s : tsig) : pset2 * rstat :=
       if is_final2 i then (p, StOk)
       else if nonempty (q_tapkeysig i) then (p, StErr)
       else let p' := with_in2 p k (fun i => set_tapsigs (q_tapsigs i ++ [s]) i) in
-           (p', if sanity2 p' then StOk else StErr)
+           if sanity2 p' then (p', StOk) else (p, StErr)
   end.
 
 (* TapElementsLeaf.TapHash *)
@@ -851,17 +864,30 @@ Definition tag_tapleaf_elements : bytes :=
 Definition tapleaf_hash (l : tleaf) : bytes :=
   tagged_hash tag_tapleaf_elements (b8 (tl_version l) :: var_slice (tl_script l)).
 
+(* sigHashOK of finalizeTaprootInput (fix 509b4c2): a 64-byte signature is SIGHASH_DEFAULT,
+   DEFAULT counts as ALL, an undeclared type as DEFAULT *)
+Definition tap_norm (t : N) : N := if t =? 0 then 1 else t.
+Definition tap_sig_ok (sht : N) (sg : bytes) : bool :=
+  let sig_type := if lenN sg =? 65 then match last_byte sg with Some b => n8 b | None => 0 end else 0 in
+  tap_norm sig_type =? tap_norm sht.
+
 (* finalizeTaprootInput: the serialized witness *)
 Definition taproot_final (i : pin2) : oc bytes :=
+  let sht := pi_sht (q_base i) in
   if is_final2 i then OcErr
-  else if nonempty (q_tapkeysig i) then OcOk (vector [q_tapkeysig i])
+  else if nonempty (q_tapkeysig i) then
+    if tap_sig_ok sht (q_tapkeysig i) then OcOk (vector [q_tapkeysig i]) else OcErr
   else if nonempty (q_tapsigs i) then
     match q_tapleafs i with
     | [] => OcErr
     | l :: _ =>
         let h := tapleaf_hash l in
-        let sigs := map ts_sig (filter (fun s => bytes_eqb (ts_leaf s) h) (q_tapsigs i)) in
-        OcOk (vector (sigs ++ [tl_script l; tl_cb l]))
+        let ms := filter (fun s => bytes_eqb (ts_leaf s) h) (q_tapsigs i) in
+        if negb (forallb (fun s => tap_sig_ok sht (ts_sig s)) ms) then OcErr
+        else match ms with
+             | [] => OcErr
+             | _ => OcOk (vector (map ts_sig ms ++ [tl_script l; tl_cb l]))
+             end
     end
   else OcErr.
 
@@ -898,8 +924,10 @@ Definition finalize2 (p : pset2) (k : nat) : pset2 * rstat :=
         end
   end.
 
-(* FinalizeAll works on a (shallow) copy and stops at the first error *)
-Definition finalize_all2 (p : pset2) : pset2 * rstat := for_all_inputs finalize2 p (seq 0 (length (q_ins p))).
+(* FinalizeAll works on a copy (a real one since fix fd68736) and stops at the first error,
+   leaving the packet as it was *)
+Definition finalize_all2 (p : pset2) : pset2 * rstat :=
+  atomic2 p (for_all_inputs finalize2 p (seq 0 (length (q_ins p)))).
 
 (* isFinalizable (v2) *)
 Definition tap_finalizable (i : pin2) : bool :=
@@ -938,7 +966,10 @@ Definition maybe_finalize_all2 (p : pset2) : pset2 * rstat :=
 Definition locktime2 (p : pset2) : N :=
   let h := fold_left (fun acc i => N.max acc (q_hlock i)) (q_ins p) 0 in
   let t := fold_left (fun acc i => N.max acc (q_tlock i)) (q_ins p) 0 in
-  if 0 <? h then h else if 0 <? t then t else match g_fallback p with Some l => l | None => 0 end.
+  (* fix 3710385: an input that only has a time requirement forces the time kind *)
+  let time_only := existsb (fun i => (0 <? q_tlock i) && (q_hlock i =? 0)) (q_ins p) in
+  if (0 <? h) && negb time_only then h
+  else if 0 <? t then t else match g_fallback p with Some l => l | None => 0 end.
 
 (* elementsutil.ValueToBytes *)
 Definition value_to_bytes (v : N) : bytes := x01 :: be_enc 8 v.
@@ -951,7 +982,10 @@ Definition out_to_txout (o : pout2) : txout :=
          (obytes (po_rp o)) (obytes (po_sp o)).
 
 Definition iss_amount (i : pin2) : bytes :=
-  match q_iss_vcommit i with Some v => v | None => value_to_bytes (q_iss_value i) end.
+  match q_iss_vcommit i with
+  | Some v => v
+  | None => if 0 <? q_iss_value i then value_to_bytes (q_iss_value i) else [x00]
+  end.
 Definition iss_token (i : pin2) : bytes :=
   match q_iss_kcommit i with
   | Some v => v
@@ -960,12 +994,13 @@ Definition iss_token (i : pin2) : bytes :=
 Definition iss_of (i : pin2) : issuance :=
   mk_iss (obytes (q_iss_nonce i)) (obytes (q_iss_entropy i)) (iss_amount i) (iss_token i).
 
-(* Pset.UnsignedTx: the transaction the signatures are computed over *)
+(* Pset.UnsignedTx: the transaction the signatures are computed over (after fix 0eaca09:
+   same sequence default, issuance test, null amount and peg-in flag as Extract) *)
 Definition unsigned_in2 (i : pin2) : txin :=
   mk_in (q_txid i)
         (if q_index i =? MinusOne then q_index i else N.land (q_index i) OutpointIndexMask)
         (if q_seq i =? 0 then u32max else q_seq i)
-        [] [] false []
+        [] [] (osome (q_pegwit i)) []
         (if osome (q_iss_entropy i) then Some (iss_of i) else None)
         [] [].
 Definition unsigned_tx2 (p : pset2) : tx :=
@@ -974,7 +1009,7 @@ Definition unsigned_tx2 (p : pset2) : tx :=
 (* Extract *)
 Definition extract_in2 (i : pin2) : option txin :=
   let b := q_base i in
-  let iss := if (0 <? q_iss_value i) || osome (q_iss_vcommit i) then Some (iss_of i) else None in
+  let iss := if osome (q_iss_entropy i) then Some (iss_of i) else None in
   let wit := match pi_fwit b with
              | Some fw => match read_witness fw with Some w => Some w | None => None end
              | None => Some []
@@ -982,7 +1017,7 @@ Definition extract_in2 (i : pin2) : option txin :=
   match wit with
   | None => None
   | Some w =>
-      Some (mk_in (q_txid i) (q_index i) (q_seq i) (obytes (pi_fsig b)) w
+      Some (mk_in (q_txid i) (q_index i) (if q_seq i =? 0 then u32max else q_seq i) (obytes (pi_fsig b)) w
                   (osome (q_pegwit i)) (match q_pegwit i with Some l => l | None => [] end)
                   iss (obytes (q_iss_vrp i)) (obytes (q_iss_krp i)))
   end.
